@@ -85,7 +85,7 @@ class StorageUnitLabel:
         _mrl_as_bytes = get_ascii_bytes(str(self.max_record_length), 5)
 
         # Storage Set Identifier
-        _ssi_as_bytes = get_ascii_bytes(self.set_identifier, 60, justify_left=True)
+        _ssi_as_bytes = get_ascii_bytes(validate_string(self.set_identifier), 60, justify_left=True)
 
         bts = _susn_as_bytes + _dlisv_as_bytes + _sus_as_bytes + _mrl_as_bytes + _ssi_as_bytes
 
